@@ -392,7 +392,7 @@ m("wrcache-symids-field", "OWN-WRCACHE", ["C11", "C12"], "break", BW,
   "a text-to-ID cache that Finish does not reset")
 m("codec-readint-bigint-helper", "TAB-CODEC", ["C13", "C03"], "break", BS,
   "\tbs, err := b.readN(b.len)\n\tif err != nil {\n\t\treturn \"\", err\n\t}\n\n\tvar ret interface{}",
-  "\tif b.len > 64 {\n\t\ttmp := new(big.Int)\n\t\tif err := b.readBigInt(b.len, tmp); err != nil {\n\t\t\treturn \"\", err\n\t\t}\n\t\treturn tmp, nil\n\t}\n\tbs, err := b.readN(b.len)\n\tif err != nil {\n\t\treturn \"\", err\n\t}\n\n\tvar ret interface{}",
+  "\tif b.len > 64 {\n\t\ttmp := new(big.Int)\n\t\tif _, err := b.readBigInt(b.len, tmp); err != nil {\n\t\t\treturn \"\", err\n\t\t}\n\t\treturn tmp, nil\n\t}\n\tbs, err := b.readN(b.len)\n\tif err != nil {\n\t\treturn \"\", err\n\t}\n\n\tvar ret interface{}",
   "ReadInt", True, "wide ints decoded with the sign-magnitude subfield decoder")
 
 
@@ -461,6 +461,28 @@ m("fixedlst-invent-id", "OWN-FIXEDLST", ["C11"], "break", BW,
 m("reflectset-pointer-into-struct", "TAB-REFLECTSET", ["C17"], "break", UM,
   "\t\tif v.Type() == symbolType {\n\t\t\tif val != nil {\n\t\t\t\tv.Set(reflect.ValueOf(*val))", "\t\tif v.Type() == symbolType {\n\t\t\tif val != nil {\n\t\t\t\tv.Set(reflect.ValueOf(val))", "decodeSymbolTo", True,
   "a *SymbolToken is set into a SymbolToken (reflect panics)")
+
+
+m("usub-annotation-length-unordered", "NUM-USUB", ["C03", "C06"], "break", BS,
+  "\tafterLength := b.len - lengthOfAnnotFieldLength\n\tif annotFieldLength >= afterLength {", "\tafterLength := b.len - lengthOfAnnotFieldLength\n\tif afterLength == 0 {", "ReadAnnotations", True,
+  "an annotation list longer than its wrapper wraps the remaining length around")
+m("usub-refactor-guard-flipped", "NUM-USUB", ["C03", "C06"], "refactor", BS,
+  "\tif annotFieldLength >= afterLength {", "\tif !(afterLength > annotFieldLength) {", "", True, "the same ordering, spelled the other way round")
+m("textivm-not-recognised", "ORD-TEXTIVM", ["C10"], "break", TR,
+  "\t\t\tif tok == tokenSymbol && val == ionVersionMarker && len(t.annotations) == 0 && t.ctx.peek() == ctxAtTopLevel {", "\t\t\tif false && tok == tokenSymbol && val == ionVersionMarker && len(t.annotations) == 0 && t.ctx.peek() == ctxAtTopLevel {", "version marker", True,
+  "a text version marker keeps the previous symbol table")
+m("textivm-no-reset", "ORD-TEXTIVM", ["C10"], "break", TR,
+  "\t\t\t\tt.lst = V1SystemSymbolTable\n\t\t\t\tt.clear()\n\t\t\t\tt.state = t.stateAfterValue()\n\t\t\t\treturn false, nil", "\t\t\t\tt.clear()\n\t\t\t\tt.state = t.stateAfterValue()\n\t\t\t\treturn false, nil", "version marker resets", False,
+  "the marker is swallowed but the table is kept")
+m("nibblenext-null-on-decoded-length", "TAB-NIBBLE-NEXT", ["C03"], "break", BS,
+  "\tif lengthIsNibble && length == 0x0F {", "\tif length == 0x0F {", "length == 15", True, "a sorted struct of 15 bytes is read as null.struct")
+m("decnegzero-any-zero", "ORD-DECNEGZERO", ["C03"], "break", BS,
+  "\t\tnegZero = neg && coef.Sign() == 0", "\t\tnegZero = coef.Sign() == 0\n\t\t_ = neg", "negative-zero argument", True, "52 80 00 decodes as -0.")
+
+
+m("sortmap-refactor-constructor", "ORD-SORTMAP", ["C16"], "refactor", MS,
+  "\tw := NewTextWriterOpts(&buf, TextWriterQuietFinish)\n\te := Encoder{\n\t\tw:    w,\n\t\topts: EncodeSortMaps,\n\t}\n", "\tw := NewTextWriterOpts(&buf, TextWriterQuietFinish)\n\te := *NewEncoderOpts(w, EncodeSortMaps)\n", "", True,
+  "the Encoder is built by its constructor instead of a literal (seeded change C11-r2-2 showed this to alarm falsely)")
 
 os.makedirs(os.path.dirname(os.path.abspath(__file__)), exist_ok=True)
 with open(os.path.join(os.path.dirname(os.path.abspath(__file__)), "core.json"), "w") as f:
